@@ -5,7 +5,7 @@
     [C08_ignore_transparent_call/_stream]: deleting every signal from any history leaves the whole
     state (trace, outcome, items yielded, wake-ups) unchanged except the wrapper's own bookkeeping. *)
 From FG Require Import Dag Builder Sched DagFacts EdgeFacts RankFacts BuilderFacts TopoFacts AugFacts BuildFacts
-     SchedInv SchedInv2 SafetyFacts CfgFacts SI_Queuer SI_Step SI2_Step LiveRun IntCredit IntRun IntStream IntTransparent Opts OptsFacts.
+     SchedInv SchedInv2 SafetyFacts CfgFacts SI_Queuer SI_Step SI2_Step LiveRun IntCredit IntRun IntStream IntTransparent Opts OptsFacts SelfSignal SelfSignalFacts.
 
 Definition interrupt_bound (st : strat) (incl pending : bool) : nat :=
   match st with
@@ -173,3 +173,41 @@ Example C08_example :
   | _ => False
   end.
 Proof. vm_compute. split; reflexivity. Qed.
+
+(** ** The signal sent from inside a poll of the call: the bound does NOT hold (known finding)
+
+    Every theorem above takes the signal as an event of its own ([EInt]) between two polls of the
+    call -- all that another task of a single-threaded executor, or a signal handler that posts to
+    the executor, can do.  A user future runs inside a poll; if it sends the signal itself, ids that
+    `for_each_concurrent` took from the ready stream earlier in the same poll have blocks whose first
+    poll (= the call of the user closure, [Start]) is still to come.  [SelfSignal] is [Sched] with a
+    designated function [sg] whose user future sends the signal in the poll in which it resolves
+    ([run_sig_none]: without such a function it is the verified machine).  For it the statement
+    "after the signal has been sent at most [interrupt_bound] more functions start" is false: *)
+Theorem C08_signal_free_variant_is_the_verified_machine : forall cf evs,
+  run_sig None cf evs = (run cf evs, None).
+Proof. exact run_sig_none. Qed.
+Print Assumptions C08_signal_free_variant_is_the_verified_machine.
+
+Definition c08_selfsig_ops : list bop :=
+  [AddFn (mkFn 0 [] []); AddFn (mkFn 1 [] []); AddFn (mkFn 2 [] []); AddFn (mkFn 3 [] []);
+   AddFn (mkFn 4 [] []); AddFn (mkFn 5 [] []); AddLogic 0 4; AddLogic 1 5].
+Definition c08_selfsig_evs : list event :=
+  [ESettle; ECmp 0 true; ECmp 1 true; EPoll; ECmp 2 true; ECmp 3 true; EPoll].
+
+(** for_each_concurrent_with, FinishCurrent, interrupted_next_item_include(false): bound 0; functions 2
+    and 3 resolve, 3 sends the signal when polled; 4 and 5 (taken from the ready stream just before, in
+    the same poll) start afterwards.  Replayed on the implementation: corpus/c08_selfsig.case. *)
+Theorem C08_refuted_signal_sent_inside_a_poll :
+  exists ops G p q evs j,
+    build (builder_run ops) = BOk G p q /\
+    let cf := mk_cfg G false AForEach false false 0 SFinish false [] true in
+    interrupt_bound SFinish false true < length (started_after_mark (run_sig (Some j) cf evs)) /\
+    started_after_mark (run_sig (Some j) cf evs) = [4; 5].
+Proof.
+  destruct (build (builder_run c08_selfsig_ops)) as [| |G p q] eqn:Hb;
+    [vm_compute in Hb; discriminate Hb | vm_compute in Hb; discriminate Hb |].
+  exists c08_selfsig_ops, G, p, q, c08_selfsig_evs, 3. split; [exact Hb|].
+  vm_compute in Hb. injection Hb as <- _ _. vm_compute. split; [apply le_S, le_n | reflexivity].
+Qed.
+Print Assumptions C08_refuted_signal_sent_inside_a_poll.
